@@ -442,3 +442,68 @@ Proof.
   rewrite (Hread (reads s) (incl_refl _)). reflexivity.
 Qed.
 End RoundTrip.
+
+(** ** any history of writes to one location: the last object is read back *)
+Fixpoint write_all (fx : bool) (s : cls_spec) (f : file) (g : option str) (os : list obj) : file * option err :=
+  match os with
+  | [] => (f, None)
+  | o :: t => match to_hdf5 fx s f g o true with
+              | (f1, None) => write_all fx s f1 g t
+              | r => r
+              end
+  end.
+
+Theorem read_after_writes_flat (s : cls_spec) : flat_spec s = true ->
+  forall (os : list obj) (o : obj) (f f' : file) (g : option str) (nt : Z),
+  wf_obj s o = true -> write_all true s f g (os ++ [o]) = (f', None) -> from_hdf5 s nt f' g = construct s nt (proj s o).
+Proof.
+  intros Hs os. induction os as [|o0 t IH]; intros o f f' g nt Hwf Hw.
+  - cbn [app write_all] in Hw. destruct (to_hdf5 true s f g o true) as [f1 [e|]] eqn:E; [discriminate|].
+    inversion Hw; subst f1. eapply roundtrip_flat; eauto.
+  - cbn [app write_all] in Hw. destruct (to_hdf5 true s f g o0 true) as [f1 [e|]] eqn:E; [discriminate|]. eapply IH; eauto.
+Qed.
+
+(** ** typed values survive their readers *)
+Lemma zl_eqb_refl l : zl_eqb l l = true. Proof. apply zl_eqb_eq; reflexivity. Qed.
+Lemma zll_eqb_refl l : zll_eqb l l = true. Proof. apply zll_eqb_eq; reflexivity. Qed.
+Lemma dtype_eqb_refl t : dtype_eqb t t = true. Proof. destruct t; reflexivity. Qed.
+
+Lemma exact_nd t sh d : reader_exact RNd (VArr t sh d) = true.
+Proof. unfold reader_exact. cbn. rewrite dtype_eqb_refl, !zl_eqb_refl. reflexivity. Qed.
+Lemma exact_nd_int8 sh d : reader_exact RNdInt8 (VArr TI8 sh d) = true.
+Proof. unfold reader_exact. cbn. rewrite !zl_eqb_refl. reflexivity. Qed.
+Lemma exact_nd_int sh d : reader_exact RNdInt (VArr TI64 sh d) = true.
+Proof. unfold reader_exact. cbn. rewrite !zl_eqb_refl. reflexivity. Qed.
+Lemma exact_int z : in_i64 z = true -> reader_exact RInt (VInt z) = true.
+Proof. intro H. unfold reader_exact. cbn. rewrite H. cbn. apply Z.eqb_refl. Qed.
+Lemma exact_strs l : Forall (Forall scalar) l -> reader_exact RNdUtf8 (VStrs l) = true.
+Proof.
+  intro H. unfold reader_exact. cbn [encode].
+  assert (E : exists bs, opt_all (map utf8_enc l) = Some bs).
+  { induction H as [|s t Hs Ht IH]; [exists []; reflexivity|]. destruct IH as [bs E]. destruct (utf8_roundtrip s Hs) as [b [Eb _]].
+    exists (b :: bs). cbn. rewrite Eb, E. reflexivity. }
+  destruct E as [bs E]. rewrite E. cbn [option_map read_d]. rewrite (opt_all_map_dec_enc _ _ E). cbn. apply zll_eqb_refl.
+Qed.
+Lemma exact_str s0 : Forall scalar s0 -> reader_exact RUtf8 (VStr s0) = true.
+Proof.
+  intro H. unfold reader_exact. cbn [encode]. destruct (utf8_roundtrip s0 H) as [b [E D]]. rewrite E. cbn [option_map read_d]. rewrite D.
+  cbn. apply zl_eqb_refl.
+Qed.
+
+(** ** the constructor leaves complete data unchanged *)
+Definition plain_class (s : cls_spec) : bool :=
+  negb (String.eqb (cname s) "GM" || String.eqb (cname s) "PGM" || String.eqb (cname s) "ALGM" || String.eqb (cname s) "ADLGM" || String.eqb (cname s) "GE").
+Lemma construct_plain s nt data : plain_class s = true -> construct s nt data = inl data.
+Proof.
+  unfold plain_class, construct. intro H. apply negb_true_iff in H.
+  destruct (String.eqb (cname s) "GM"); [discriminate|]. destruct (String.eqb (cname s) "PGM"); [discriminate|].
+  destruct (String.eqb (cname s) "ALGM"); [discriminate|]. destruct (String.eqb (cname s) "ADLGM"); [discriminate|].
+  destruct (String.eqb (cname s) "GE"); [discriminate|]. reflexivity.
+Qed.
+Lemma construct_GM s nt data : cname s = "GM"%string -> attr "ploidy" data <> None -> construct s nt data = inl data.
+Proof. intros E H. unfold construct. rewrite E. cbn. destruct (attr "ploidy" data); [reflexivity | congruence]. Qed.
+Lemma construct_GE s nt data : cname s = "GE"%string -> Forall (fun kv => snd kv <> None) data -> construct s nt data = inl data.
+Proof.
+  intros E H. unfold construct. rewrite E. cbn. f_equal. induction H as [|[k v] t Hv Ht IH]; [reflexivity|]. cbn [map]. rewrite IH.
+  cbn [snd] in Hv. destruct v; [reflexivity | congruence].
+Qed.
